@@ -301,53 +301,58 @@ def insertDottedCircle (u : Ucd) (f : Font) (c : Cfg) (l : List G) (s : Scratch)
 
 def setCluster (c : Nat) (g : G) : G := { g with cluster := c }
 
-/-- src: buffer.rs::merge_clusters_impl at cluster levels 0 / 1, for `seg = info[start..end]`
-    (non-empty) and `post = info[end..len]`, in a buffer without out-part (`idx = out_len = 0`).
+/-- src: buffer.rs::merge_clusters_impl at cluster levels 0 / 1, for `pre = info[0..start]`,
+    `seg = info[start..end]` (non-empty) and `post = info[end..len]`, in a buffer without out-part
+    (`idx = out_len = 0`).
     * `cluster` = minimum over the segment;
     * "extend end": `while end < len && info[end-1].cluster == info[end].cluster` — the equality chain
-      is `takeWhile (cluster == last cluster of seg)`;
-    * "extend start": the loop guard is `end < start`, which never holds (defect D4), so nothing before
-      `start` is touched — mirrored: `pre` is not even a parameter;
+      is `takeWhile (cluster == last cluster of seg)` on `post`;
+    * "extend start": `while idx < start && info[start-1].cluster == info[start].cluster` (the guard
+      after the D4 fix; `idx = 0`) — the trailing run of `pre` whose cluster is that of `seg`'s first slot;
     * the out-buffer continuation loop runs over `out_len = 0` slots.
-    Returns the new `seg ++ post`. -/
-def mergeSeg (seg post : List G) : List G :=
+    Returns the new `pre` and the new `seg ++ post`. -/
+def mergeSeg (pre seg post : List G) : List G × List G :=
   match seg with
-  | [] => post
+  | [] => (pre, post)
   | g0 :: tl =>
     let cluster := tl.foldl (fun c g => min c g.cluster) g0.cluster
     let lastC := (seg.getLast?.getD g0).cluster
     let ext := if cluster != lastC then post.takeWhile (fun g => g.cluster == lastC) else []
-    (seg ++ ext).map (setCluster cluster) ++ post.drop ext.length
+    let k := if cluster != g0.cluster then (pre.reverse.takeWhile fun g => g.cluster == g0.cluster).length else 0
+    (pre.take (pre.length - k) ++ (pre.drop (pre.length - k)).map (setCluster cluster),
+     (seg ++ ext).map (setCluster cluster) ++ post.drop ext.length)
 
 /-- src: buffer.rs::merge_clusters (+ `_impl`): no-op for fewer than two slots; at level 2 only glyph
     flags are touched (not modelled). -/
-def mergeClusters (level : Nat) (seg post : List G) : List G :=
-  if seg.length < 2 then seg ++ post
-  else if level == 2 then seg ++ post
-  else mergeSeg seg post
+def mergeClusters (level : Nat) (pre seg post : List G) : List G × List G :=
+  if seg.length < 2 then (pre, seg ++ post)
+  else if level == 2 then (pre, seg ++ post)
+  else mergeSeg pre seg post
 
-/-- `foreach_grapheme!` with an optional `merge_clusters(start, end)` per grapheme: the groups
-    (`group_end` with `_hb_grapheme_group_func` = "next is a continuation"), each merged in the buffer
-    state left by the previous merges (a merge may rewrite clusters of later slots).  `fuel` is only
-    there for structural recursion (callers pass the length). -/
-def graphemes (merge : Bool) (level : Nat) : Nat → List G → List (List G)
-  | 0, _ => []
-  | _, [] => []
-  | fuel + 1, g :: tl =>
+/-- `foreach_grapheme!` / `reverse_groups` over the physical buffer: `done` = `info[0..start]` as it
+    stands, the list = `info[start..len]`.  The group is `group_end` with `_hb_grapheme_group_func`
+    ("next is a continuation"); it is optionally merged (`merge_clusters(start, end)`, which may
+    rewrite clusters before and after it) and, for `reverse_groups`, reversed in place.
+    `fuel` is only there for structural recursion (callers pass the length). -/
+def graphemeWalk (merge : Bool) (level : Nat) (rev : Bool) : Nat → List G → List G → List G
+  | 0, done, rest => done ++ rest
+  | _, done, [] => done
+  | fuel + 1, done, g :: tl =>
     let seg := g :: tl.takeWhile G.cont
     let post := tl.dropWhile G.cont
-    let all := if merge then mergeClusters level seg post else seg ++ post
-    all.take seg.length :: graphemes merge level fuel (all.drop seg.length)
+    let r := if merge then mergeClusters level done seg post else (done, seg ++ post)
+    let segNew := r.2.take seg.length
+    graphemeWalk merge level rev fuel (r.1 ++ (if rev then segNew.reverse else segNew)) (r.2.drop seg.length)
 
 /-- src: ot_shape.rs::form_clusters (level 0 merges graphemes; levels 1, 2 only set glyph flags) -/
 def formClusters (c : Cfg) (l : List G) (s : Scratch) : List G :=
-  if s.nonAscii && c.level == 0 then (graphemes true c.level l.length l).flatten else l
+  if s.nonAscii && c.level == 0 then graphemeWalk true c.level false l.length [] l else l
 
 /-- src: ot_layout.rs::_hb_ot_layout_reverse_graphemes = buffer.rs::reverse_groups(grapheme, level == 1):
     every group is merged (level 1) and reversed in place, then the whole buffer is reversed:
     the groups appear in reverse order, each in its own order. -/
 def reverseGraphemes (level : Nat) (l : List G) : List G :=
-  (graphemes (level == 1) level l.length l).reverse.flatten
+  (graphemeWalk (level == 1) level true l.length [] l).reverse
 
 /-- src: ot_shape.rs::ensure_native_direction — `hor`: the script's horizontal direction, reset to LTR
     for a natively-RTL script when the run has digits or regional indicators and no letters
@@ -567,9 +572,10 @@ def mergeBackward (c old : Nat) (out : List G) : List G :=
   out.take (out.length - k) ++ (out.drop (out.length - k)).map (setCluster c)
 
 /-- "Merge cluster forward" (`merge_clusters(i, i + 2)` while nothing has been kept yet), then the
-    deleted slot `info[i]` is dropped: what remains of `info[i+1..len]` -/
+    deleted slot `info[i]` is dropped: what remains of `info[i+1..len]`.  The slots before `i` are all
+    dead at that point (`j == 0`), so what "extend start" writes there is never read: `pre = []`. -/
 def mergeForwardDrop (level : Nat) (g : G) : List G → List G
-  | n :: tl' => (mergeClusters level [g, n] tl').drop 1
+  | n :: tl' => (mergeClusters level [] [g, n] tl').2.drop 1
   | [] => []
 
 /-- src: buffer.rs::delete_glyphs_inplace(_hb_glyph_info_is_default_ignorable).
